@@ -22,7 +22,7 @@ EXPLANATION = ('Monotonicity invariants of the real receiver (returned ids stric
                'wire lemmas proved on the real encode/decode/subscribe expressions with z3/cvc5 strings.')
 
 SQ = [Shape(('all',), (0,), False), Shape(('explicit',), (0,), False), Shape(('all', 'all'), (0, 0), False), Shape(('all',), (0,), False, timeout='sym', state='given'),
-      Shape(('all', 'all'), (0, 1), False)]
+      Shape(('all', 'all'), (0, 1), False), Shape(('all', 'all'), (0, 0), False, timeout='sym', entry='held')]
 ST = SQ + [Shape(('star', 'explicit'), (0, 0), False), Shape(('all', 'all'), (0, 0), True)]
 
 
